@@ -79,6 +79,7 @@ StepFailing(rs, a, out, post) ==
                  IF a.j >= Len(rs) THEN "IndexSizeRejected"
                  ELSE IF \E i \in 0..Len(Container(rs, a.j).kids) :
                            post = WithKids(rs, a.j, InsK(Container(rs, a.j).kids, a.c, i)) THEN "ok" ELSE "NestedAddPutsRuleSomewhere"
+           [] a.op = "kidinsertlist" -> "ok"      \* whatever is taken over: the state invariants (ChildrenAllowed, parents) judge the result
            [] a.op = "kiddelete" ->
                  IF a.j >= Len(rs) \/ a.i >= Len(Container(rs, a.j).kids) THEN "IndexSizeRejected"
                  ELSE IF post = WithKids(rs, a.j, DelK(Container(rs, a.j).kids, a.i)) THEN "ok" ELSE "NestedDeleteRemovesExactlyThatRule"
